@@ -147,6 +147,10 @@ def exhaustive_cache_model(ctx):
     cfg = "TTLCache.cfg" if ctx.thorough else "TTLCache_quick.cfg"
     res = lib.tlc_exhaustive("TTLCache", cfg, timeout=3600)
     ctx.add_model("TTLCache/" + cfg, res)
+    if ctx.thorough:
+        # the same model in the seconds regime (sentinels -2 and -1 units)
+        res = lib.tlc_exhaustive("TTLCache", "TTLCache_s.cfg", timeout=3600)
+        ctx.add_model("TTLCache/TTLCache_s.cfg", res)
     ctx.cov["exhaustive"] = True
     ctx.cov["exhaustive_scope"] = "TLC exhaustive: CacheImplSeq against CacheSem, %s (all call sequences over the menu within MaxW value-creating calls and the clock bound)" % cfg
 
@@ -841,6 +845,10 @@ def life_programs(ctx):
 
 
 def check_c15(ctx):
+    res = lib.tlc_exhaustive("CacheLifeMC", "CacheLifeMC.cfg", timeout=3600)
+    ctx.add_model("CacheLifeMC (janitor machine: OnlyWhenConfigured, BoundedStaleness, TickAhead)", res)
+    ctx.cov["exhaustive"] = True
+    ctx.cov["exhaustive_scope"] = "TLC exhaustive: CacheLife over 2 keys, intervals {-3,0,2,3,default 4}, TTLs {0,1,2,5}, advances {1,2,3}, clock <= 9"
     sc = ctx.scratch()
     d = lib.mktemp("verif-life-")
     life = [{"kind": k, "n": n, "entries": e, "intv": 1_000_000, "cb": cb}
